@@ -180,7 +180,9 @@ package resolve
 //@   let skipped = res.fetchSkipped
 //@   let suppress = l.apolloCompatibilitySuppressFetchErrors
 //@   ghost var g_benign bool = false
-//@   at call isEmptyEntityFetch: ghost g_benign = g_benign || result
+//@   ghost var g_dataNull bool = false
+//@   at call astjson.ValueIsNull: ghost g_dataNull = result
+//@   at call isEmptyEntityFetch: ghost g_benign = g_benign || (result && g_dataNull)
 //@   at call result.emptyAliasIsBenign: ghost g_benign = g_benign || result
 //@   ensures {silent.success.only.if.merged.or.benign} result == nil ==> count(merged) > old(count(merged)) || count(dataSet) > old(count(dataSet)) || count(errorRendered) > old(count(errorRendered)) || count(errorsMerged) > old(count(errorsMerged)) || g_benign || skipped || suppress || (res.batchStats != nil && g_batchLen == len(res.batchStats))
 //@   modifies *, count(merged), count(dataSet), count(errorRendered), count(errorsMerged), count(arrayAppended), count(jsonSet)
